@@ -64,6 +64,10 @@ def shard(args):
         if not ops:
             continue
         first, last, min_last = period(live)
+        # the modelled period as the code sees it: every hour at which some hourly value exists
+        allk = [k for v in live.rs.observe().values() if v is not None and v["t"] == "h" for k in v["ks"]]
+        last_all = datetime.fromtimestamp(max(allk), tz=timezone.utc) if allk else last
+        first_all = datetime.fromtimestamp(min(allk), tz=timezone.utc) if allk else first
         kind = rng.choice(["first", "first", "interior", "interior", "last", "before", "after", "naive", "failing"])
         if kind == "first":
             date = first
@@ -73,9 +77,9 @@ def shard(args):
         elif kind == "last":
             date = last
         elif kind == "before":
-            date = first - timedelta(hours=rng.randint(1, 50))
+            date = min(first, first_all) - timedelta(hours=rng.randint(1, 50))
         elif kind == "after":
-            date = last + timedelta(hours=rng.randint(1, 50))
+            date = max(last, last_all) + timedelta(hours=rng.randint(1, 50))
         elif kind == "naive":
             date = first.replace(tzinfo=None)
         else:
